@@ -80,8 +80,15 @@ class TypedGen(gen_tmpl.Gen):
 SIG = "(r *Recv) %s(a string, n int, b bool, c Named, fn func() string)"
 
 
-def print_typed(f, pkg):
-    out = ["package " + pkg, "", 'import f "fmt"', "import (", '\tstr "strings"', ")", "", DECLS.strip("\n"), ""]
+def print_typed(f, pkg, rng=None):
+    out = ["package " + pkg, "", 'import f "fmt"', "import (", '\tstr "strings"', ")", ""]
+    extra = []
+    if rng is not None and rng.random() < 0.4:
+        # the user's own imports of packages goht imports too (textual duplicates must be removed)
+        pick = rng.sample(['"context"', '"io"', '"github.com/stackus/goht"', 'f "fmt"', 'str "strings"'], rng.randint(1, 3))
+        out += ["import " + p for p in pick[:1]] + (["import ("] + ["\t" + p for p in pick[1:]] + [")"] if len(pick) > 1 else []) + [""]
+        extra = ["var _ context.Context", "var _ io.Writer", "var _ goht.Template"]
+    out += [DECLS.strip("\n"), ""] + extra + [""]
     for t in f["templates"]:
         out.append("@goht " + SIG % t["name"] + " {")
         body = []
@@ -184,7 +191,7 @@ def run(chk):
             for i in range(npos):
                 g = TypedGen(rng, prefix="W")
                 f = g.file()
-                pos["p%04d" % i] = print_typed(f, "p%04d" % i).encode("utf-8")
+                pos["p%04d" % i] = print_typed(f, "p%04d" % i, rng).encode("utf-8")
             neg = {}
             for i, (name, line) in enumerate(sorted(ILL_TYPED.items())):
                 for j in range(1 if quick else 4):
